@@ -229,7 +229,12 @@ type faultStoreFile struct {
 
 func (f *faultStoreFile) Read(p []byte) (int, error)        { return f.f.Read(p) }
 func (f *faultStoreFile) Stat() (hackpadfs.FileInfo, error) { return f.f.Stat() }
-func (f *faultStoreFile) Chmod(m hackpadfs.FileMode) error  { return hackpadfs.ChmodFile(f.f, m) }
+func (f *faultStoreFile) Chmod(m hackpadfs.FileMode) error {
+	if err := f.plan.call("store.file.Chmod"); err != nil {
+		return &hackpadfs.PathError{Op: "chmod", Path: f.name, Err: err}
+	}
+	return hackpadfs.ChmodFile(f.f, m)
+}
 func (f *faultStoreFile) Write(p []byte) (int, error) {
 	if err := f.plan.call("store.Write"); err != nil {
 		return 0, err
